@@ -114,6 +114,8 @@ m('inverse_rule_eq', ['C07'], '_base/rules.py', '            if left.operator is
 # ---- C08 ------------------------------------------------------------------------------------------
 m('dense_tagged_symmetric', ['C08'], '_base/dense.py', 'class DenseBlockDiagonalOperator(AbstractLinearOperator):', 'from furax._base.core import symmetric\n\n\n@symmetric\nclass DenseBlockDiagonalOperator(AbstractLinearOperator):')
 m('hwp_psd', ['C08'], 'operators/hwp.py', '@diagonal\nclass HWPOperator', 'from furax.operators import positive_semidefinite\n\n\n@positive_semidefinite\n@diagonal\nclass HWPOperator')
+m('lower_triangular_registers_upper', ['C08'], '_base/core.py', 'def lower_triangular(cls: type[T]) -> type[T]:\n    lx.is_lower_triangular.register(cls)(lambda _: True)', 'def lower_triangular(cls: type[T]) -> type[T]:\n    lx.is_upper_triangular.register(cls)(lambda _: True)')
+m('lazy_transpose_forwards_triangular_tags', ['C08'], '_base/core.py', 'class TransposeOperator(_AbstractLazyDualOperator):\n', 'lx.is_lower_triangular.register(_AbstractLazyDualOperator)(lambda dual: lx.is_lower_triangular(dual.operator))\n\n\nclass TransposeOperator(_AbstractLazyDualOperator):\n')
 m('broadcast_diag_tagged_diagonal', ['C08'], '_base/diagonal.py', 'class BroadcastDiagonalOperator(AbstractLinearOperator):', '@diagonal\nclass BroadcastDiagonalOperator(AbstractLinearOperator):')
 # ---- C10 ------------------------------------------------------------------------------------------
 m('revert_blockrow_single', ['C10'], '_base/blocks.py', '        op, leaf = op_leaves[0]\n        value = op(leaf)\n', '        if len(op_leaves) == 1:\n            return op_leaves[0]\n        op, leaf = op_leaves[0]\n        value = op(leaf)\n')
